@@ -20,9 +20,14 @@ RULE = ("catalogue of pairs of queries that differ in one component (types 1/257
         "identical, unrelated, irrelevant parts changed), random histories of 3..9 executions on one Cache with scripted "
         "downstream answers (good, none, truncated, wrong name/type/class, no question, replacing a cached answer) and "
         "/flush, random client messages through NewContext; sweeps of the real key over all 65536 types, all 65536 "
-        "classes, the 8 flag combinations and names of length 1..300. A pair is non-trivial when both queries are "
+        "classes, the 8 flag combinations and names of length 1..300; the chain [real redirect plugin; real Cache; fake "
+        "upstream] with lazy_cache_ttl > 0 and = 0, 0..4 redirect rules (several aliases per target, a target that is "
+        "itself redirected, no rule as control): store, back-date the entry past its message TTL, ask aliases and "
+        "targets, join every lazy update, and record question / owner names / address of every reply and what the "
+        "store holds under the key of every name. A pair is non-trivial when both queries are "
         "cacheable and differ in exactly one of name/type/class/AD/CD/DO; a history when it has a hit and at least two "
-        "cacheable non-hits; distinct = distinct Gallina literal")
+        "cacheable non-hits; a redirect+lazy run when a background update followed a redirected stale hit and a "
+        "query came after it; distinct = distinct Gallina literal")
 ASSUMPTIONS = [
     "\"the query\" is the message Cache.Exec reads (qCtx.Q()): NewContext replaces the client's OPT by a fresh one, so DO "
     "is part of the key only as far as a plugin in front of the cache sets it on qCtx.QOpt() "
@@ -32,7 +37,9 @@ ASSUMPTIONS = [
     "the store compares keys by Go string equality (concurrent_map: map[key]V per shard; maphash only selects the shard); "
     "expiry, gc and eviction only remove entries (modelled as arbitrary Drop steps; timing is property C05)",
     "saveRespToCache's admission decision is abstracted to one boolean per response (r_ok); lazy cache is off in the "
-    "differential run (lazy hits return the same stored entry under the same key)",
+    "pair/history cases; the redirect+lazy cases run with lazy_cache_ttl = 86400, back-date entries through the verif "
+    "export VerifC10Backdate and join background updates with VerifC10LazyWait (one P while they run, so the update's "
+    "goroutine starts after the caller has returned through redirect)",
 ]
 TRUSTED_BASE = [
     "hand-written model coq/Model/CacheKey.v tied to plugin/executable/cache/utils.go (getMsgKey, answersQuestion), "
@@ -47,7 +54,9 @@ LEVEL_TEXT = ("Theorems in coq/Properties/C04.v: the key built by getMsgKey is i
               "the six leading bytes have fixed width); it is empty exactly for QR / opcode != QUERY / != 1 question and such a "
               "query never touches the store; for every history of executions, removals and flushes a served cached answer was "
               "stored by an earlier execution whose query has the same name, type, class, AD, CD and DO, and carries the "
-              "query's own question; the same question is served the stored answer; the Judge's oracle same_qf_b is proved "
+              "query's own question; whatever the store holds under a key answers a query with that key (a lazy background update "
+              "is the step Query q r r for the query it was started for, and Judge.C04.lazy_run runs redirect + lazy cache "
+              "that way); the same question is served the stored answer; the Judge's oracle same_qf_b is proved "
               "equivalent to the theorems' notion. The model is run inside Coq on every case the Go driver observed.")
 LEVEL_NOTE = ("Trusted: Coq kernel + vm_compute; hand-written model tied to the code by the differential run and Gen/Constants.v; "
               "Go string equality of map keys; IsEdns0/Do as modelled. No axioms. Kept refutations show the pre-repair key "
